@@ -270,7 +270,8 @@ func createGeoServer(servers map[string]string) []*geoServer {
 			if err != nil {
 				continue
 			}
-			if math.IsNaN(lat) || math.IsInf(lat, 0) || math.IsNaN(lon) || math.IsInf(lon, 0) {
+			// NaN compares false with everything: !(x >= a && x <= b) also rejects NaN and Inf
+			if !(lat >= -90 && lat <= 90) || !(lon >= -180 && lon <= 180) {
 				continue
 			}
 
